@@ -7,7 +7,11 @@ COQ_IMPORTS = ['C12_Model']
 MODELLED_FUNCS = {'sugar/core/cane.py': ['find_orfs', '_frame_start', '_inds2orf', 'match'],
                   'sugar/core/seq.py': ['BioSeq.find_orfs', 'BioSeq.matchall', 'BioSeq.match', 'BioBasket.find_orfs']}
 GENERATORS = ['gen_codes']          # C12_Model uses the C05 model of BioSeq.rc, which reads the regenerated COMPLEMENT tables
-RULE = ('exhaustive strings over {A,T,G} up to length 6 (quick) / 9 (thorough; 29 523 strings x 3 configurations: default fwd, default '
+RULE = ('round 7 x-stream (700 quick / 6 000 thorough, through run_C12x): gap in {-, ., .-, -., _, ~, *, N, ._, -_, _.-, -~, None} on texts with gap '
+        'columns of the chosen set and stray symbols of the others, start in {start, ATG, ATG|GTG|TTG, ATG|CTG, AUG|ATG, GTG, ATG|ATA, stop, '
+        'ATGG|AT, TG|ATG} x stop in {stop, TAA, TAA|TAG, TGA, TAG|TGA|TAA, UAA|TAA, TAA|AAT, start, TAAA|TA}, rf names / ints / tuples / lists / '
+        'frames outside -3..2 (alone and mixed) / one numpy integer / float / None / other strings / repeated frames (outside the domain), all modes and minlen; '
+        'exhaustive strings over {A,T,G} up to length 6 (quick) / 9 (thorough; 29 523 strings x 3 configurations: default fwd, default '
         'both, one random mode) plus random DNA/RNA up to 600 columns assembled from random bases, injected start/stop codons on both '
         'strands and gap runs (also inside codons); rf in {fwd,bwd,both,int,tuple,list} x need_start in {always,once,never} x need_stop x '
         'minlen; seq- and basket-level calls; a gap-option stream (400 quick / 4 000 thorough): gap="." and gap=".-" (and default) on texts '
@@ -32,21 +36,21 @@ RULE = ('exhaustive strings over {A,T,G} up to length 6 (quick) / 9 (thorough; 2
         'target, custom type, filter operator, several sequences, mode, value kinds)')
 TRUSTED = ['CPython re (finditer over the rewritten codon alternations; modelled by a hand-written leftmost non-overlapping matcher and '
            'compared on every case), bisect, dict/list operations',
-           'modelled: find_orfs, _inds2orf, the part of match()/matchall() used by find_orfs with the default start/stop patterns and '
-           'gap="-" (cane.py:167-343), BioSeq.rc via the C05 model; BioSeq.find_orfs / BioBasket.find_orfs (reduce over the per-sequence '
+           'modelled: find_orfs, _inds2orf, the part of match()/matchall() used by find_orfs with the default start/stop patterns or custom alternations of literal words and '
+           'any gap set (cane.py:167-343), BioSeq.rc via the C05 model; BioSeq.find_orfs / BioBasket.find_orfs (reduce over the per-sequence '
            'lists, TypeError for an empty basket), the feature observables type/seqid/strand/rf set by _inds2orf, and '
            'FeatureList.filter(len_<op>=v) by its meaning (op(len(ft), v) for ge/gt/le/lt/eq/ne/min/max); Feature/Location/Meta '
            'constructors, UserList.__add__ and functools.reduce are trusted and compared on every basket case']
 ASSUMPTIONS = ['Python str restricted to Latin-1 code points; sequences over ACGTU, acgtu (soft-masked, only reachable in place) and "-"',
-               'the Coq model has one gap symbol "-": find_orfs(gap=".") / (gap=".-") on a text gapped with "." is compared with the '
-               'model (and the first-principles oracle) on the same text with "." rewritten to "-"; that sugar treats the gap symbols '
-               'alike (regex class, gap positions, rc() keeping ".", rstrip) is exactly what these cases test',
-               'custom start/stop regexes and gap characters other than "-" are outside the model; feature types and sequence ids are '
-               'Latin-1 strings (an id None is not generated)',
-               'rf given as ONE numpy integer is outside the domain (isinstance(rf, int) is False for it: TypeError on the unchanged tree); '
+               'the gap option is a set of characters in the model (run_C12x): gap=None and non-empty strings over ".-_~*N" with "-" first or '
+               'last; every case with a gap option is evaluated by the model on the text as it is; the first-principles oracle sees the '
+               'text with the gap characters rewritten to "-" and other "-" to "#"',
+               'custom start/stop: alternations of non-empty words of ASCII letters that are no gap characters (any lengths); regex '
+               'syntax beyond "|" is outside the model; feature types and sequence ids are Latin-1 strings (an id None is not generated)',
+               'rf: names, ints and tuples/lists of ints (also outside -3..2), ONE numpy integer / float / None (TypeError) and other '
+               'strings (AssertionError) are inside the domain; tuples with repeated frames and bool are outside; '
                'numpy integers inside an rf tuple/list and as minlen, integral floats as minlen, numpy.bool_ and 0/1 as need_stop are inside',
-               'domain: sequences over ACGTU-, rf tuples/lists without repeated or out-of-range frames, minlen >= 0; every '
-               'need_start/need_stop mode is inside the domain']
+               'domain of run_C12x: sequences over ACGTUN-._~* (and acgtun), minlen >= 0; every need_start/need_stop mode']
 
 NS = {'always': 0, 'once': 1, 'never': 2}
 STARTS = {'ATG'}
@@ -68,10 +72,23 @@ def _mk(s, rf='fwd', need_start='always', need_stop=True, minlen=0, basket=False
 GAPS = ('-', '.', '.-')
 
 
-def _norm_s(case):
-    """the model knows one gap symbol: a text gapped with '.' (gap='.' or '.-') is presented to it with '.' rewritten to '-'"""
+def _is_x(case):
+    """cases evaluated through run_C12x: the gap option as a set, custom start/stop codon sets, every rf form"""
+    return bool(case.get('x')) or 'gap' in case
+
+
+def _gapset(case):
     g = case.get('gap', '-')
-    return case['s'].replace('.', '-') if isinstance(g, str) and '.' in g else case['s']
+    return g if isinstance(g, str) else ''
+
+
+def _norm_s(case):
+    """the reference computations know one gap symbol: every character of the gap option becomes '-', a '-' that is no gap
+    character (gap='.', gap=None) becomes '#', a residue of no codon"""
+    if 'gap' not in case:
+        return case['s']
+    g = _gapset(case)
+    return ''.join('-' if ch in g else '#' if ch == '-' else ch for ch in case['s'])
 
 
 def _with_gap(rng, s, gap):
@@ -185,8 +202,78 @@ def _rand_seq(rng, n):
     return s
 
 
+XGAPS = ('-', '.', '.-', '-.', '_', '~', '*', 'N', '._', '-_', '_.-', '-~', None, None)
+XSTARTS = ('start', 'ATG', 'ATG|GTG|TTG', 'ATG|CTG', 'AUG|ATG', 'GTG', 'ATG|ATA', 'stop', 'ATGG|AT', 'TG|ATG')
+XSTOPS = ('stop', 'TAA', 'TAA|TAG', 'TGA', 'TAG|TGA|TAA', 'UAA|TAA', 'TAA|AAT', 'start', 'TAAA|TA')
+
+
+def _gen_x_stream(rng, n):
+    """gap option as a set (every safe symbol, several at once, None), custom start/stop codon sets, every rf form"""
+    out = []
+    for _ in range(n):
+        gap = rng.choice(XGAPS)
+        L = rng.choice([3, 6, 9, 12, 15, 20, 30, 45, 60, 90])
+        toks = []
+        while sum(map(len, toks)) < L:
+            x = rng.random()
+            toks.append(rng.choice('ACGT') if x < 0.4 else rng.choice(['ATG', 'GTG', 'TTG', 'CTG', 'ATA']) if x < 0.6 else
+                        rng.choice(['TAA', 'TAG', 'TGA', 'AAT']) if x < 0.8 else
+                        rng.choice(['CAT', 'CAC', 'CAA', 'TTA', 'CTA', 'TCA', 'ATT']))
+        s = ''.join(toks)
+        if rng.random() < 0.75:                       # gap columns of the chosen set, strays of the other symbols
+            g = gap or ''
+            pool = (list(g) * 4 if g else []) + list('-._~*N')
+            t = list(s)
+            for _k in range(rng.randint(1, 1 + len(t) // 3)):
+                t.insert(rng.randrange(len(t) + 1), rng.choice(pool) * rng.choice([1, 1, 2, 3]))
+            s = ''.join(t)
+        x = rng.random()
+        tup = False
+        if x < 0.25:
+            rf = rng.choice(['fwd', 'bwd', 'both', 'both'])
+        elif x < 0.4:
+            rf = rng.choice([0, 1, 2, -1, -2, -3])
+        elif x < 0.65:
+            fr = [0, 1, 2, -1, -2, -3]
+            rng.shuffle(fr)
+            rf, tup = fr[:rng.randint(0, 6)], rng.random() < 0.6
+        elif x < 0.8:                                  # frames outside -3..2, alone or next to real frames
+            fr = [rng.choice([3, 4, 5, 6, 7, -4, -5, -6, -7, 11, -12])]
+            if rng.random() < 0.6:
+                fr += rng.sample([0, 1, 2, -1, -2, -3], rng.randint(1, 3))
+                rng.shuffle(fr)
+            rf, tup = (fr[0] if len(fr) == 1 and rng.random() < 0.5 else fr), rng.random() < 0.6
+        elif x < 0.86:
+            rf = {'np': rng.choice([0, 1, 2, -1, -2, -3, 5])}
+        elif x < 0.9:
+            rf = {'float': float(rng.choice([0, 1, -1]))}
+        elif x < 0.94:
+            rf = None
+        elif x < 0.97:
+            rf = rng.choice(['forward', 'FWD', 'all', '', '+', 'fwd ', '0'])
+        else:
+            rf = [rng.choice([0, 1, -1]) for _ in range(rng.randint(2, 3))]      # possibly repeated frames: outside the domain
+            tup = True
+        if rng.random() < 0.4:
+            cfg = dict(need_start='always', need_stop=True, minlen=0)
+        else:
+            cfg = dict(need_start=rng.choice(['always', 'once', 'never', 'never']), need_stop=rng.random() < 0.5,
+                       minlen=rng.choice([0, 0, 0, 3, 6, 9]))
+        c = _mk(s, rf=rf, rf_tuple=tup, gap=gap, **cfg)
+        c['x'] = True
+        if rng.random() < 0.6:
+            st, sp = rng.choice(XSTARTS), rng.choice(XSTOPS)
+            if st != 'start':
+                c['start'] = st
+            if sp != 'stop':
+                c['stop'] = sp
+        out.append(c)
+    return out
+
+
 def gen_cases(rng, tier):
     cases = []
+    cases += _gen_x_stream(rng, 6000 if tier == 'thorough' else 700)
     # hand-picked: every start/stop codon alone, in frame, on both strands, with gaps
     for st in ('ATG', 'AUG'):
         for sp in ('TAA', 'TAG', 'TGA', 'UAA', 'UAG', 'UGA'):
@@ -538,12 +625,20 @@ def _bk_spec(case, got):
 
 # ----------------------------------------------------------------------------- implementation
 
+def _rf_value(case):
+    rf = case['rf']
+    if isinstance(rf, dict):
+        import numpy as np
+        return np.int64(rf['np']) if 'np' in rf else float(rf['float'])
+    if isinstance(rf, list) and case.get('rf_tuple'):
+        return tuple(rf)
+    return rf
+
+
 def _kwargs(case, minlen=None):
     kw = {}
-    rf = case['rf']
-    if isinstance(rf, list) and case.get('rf_tuple'):
-        rf = tuple(rf)
-    if rf != 'fwd':
+    rf = _rf_value(case)
+    if not (isinstance(rf, str) and rf == 'fwd'):
         kw['rf'] = rf
     if case['need_start'] != 'always':
         kw['need_start'] = case['need_start']
@@ -554,6 +649,9 @@ def _kwargs(case, minlen=None):
         kw['minlen'] = m
     if case.get('gap', '-') != '-':
         kw['gap'] = case['gap']
+    for k in ('start', 'stop'):
+        if k in case:
+            kw[k] = case[k]
     return kw
 
 
@@ -645,7 +743,24 @@ def _rf_term(case):
     return '(RFtuple %s)' % coq_list([coq_z(x) for x in rf])
 
 
+def _rfany_term(case):
+    rf = case['rf']
+    if rf is None:
+        return 'RAnone'
+    if isinstance(rf, dict):
+        return '(RAnpint %s)' % coq_z(int(rf['np'])) if 'np' in rf else 'RAfloat'
+    if isinstance(rf, str) and rf not in ('fwd', 'bwd', 'both'):
+        return 'RAbadstr'
+    return '(RAspec %s)' % _rf_term(case)
+
+
 def _one_model_term(case):
+    if _is_x(case):
+        g = case.get('gap', '-')
+        return 'out (run_C12x %s %s %s %s %s %s %s %s)' % (
+            'None' if g is None else '(Some %s)' % coq_bs(g), coq_bs(case.get('start', 'start')), coq_bs(case.get('stop', 'stop')),
+            _rfany_term(case), coq_N(NS.get(case['need_start'], 0)), coq_bool(bool(case['need_stop'])),
+            coq_z(int(case['minlen'])), coq_bs(case['s']))
     return 'out (run_C12 %s %s %s %s %s)' % (_rf_term(case), coq_N(NS.get(case['need_start'], 0)), coq_bool(bool(case['need_stop'])),
                                               coq_z(int(case['minlen'])), coq_bs(_norm_s(case)))
 
@@ -654,9 +769,12 @@ def _one_split_model(case, m):
     ok = isinstance(m, list) and len(m) == 2
     if not ok:
         return False, [False, m]
-    g = case.get('gap', '-')
-    wf = (bool(m[0]) and case['need_start'] in NS and isinstance(case['need_stop'], bool) and g in GAPS
-          and not (g == '.' and '-' in case['s']))      # with gap='.' a '-' would be a residue outside the alphabet
+    wf = bool(m[0]) and case['need_start'] in NS and isinstance(case['need_stop'], bool)      # the domain is decided by the model
+    rf = case['rf']
+    if isinstance(rf, (list, tuple)) and not all(isinstance(x, int) and not isinstance(x, bool) for x in rf):
+        wf = False
+    if isinstance(rf, bool):
+        wf = False
     return wf, [wf, m[1]]
 
 
@@ -692,21 +810,50 @@ def _strand(s, frame):
     return ''.join(COMP.get(c, c) for c in reversed(s))      # lower-case letters are kept (they are no codon letters)
 
 
-def _ref_frame(d, k, need_start, need_stop):
-    """ORFs of frame offset k on the gap-free DNA string d by a codon-by-codon scan; residue coordinates on the strand"""
+def _ref_frame(d, k, need_start, need_stop, starts=STARTS, stops=STOPS):
+    """ORFs of frame offset k on the gap-free string d by a codon-by-codon scan; residue coordinates on the strand"""
     n = len(d)
     res = []
     cur = k if need_start == 'never' else None
     for p in range(k, n - 2, 3):
         cod = d[p:p + 3]
-        if cur is None and cod in STARTS:
+        if cur is None and cod in starts:
             cur = p
-        if cod in STOPS and cur is not None:
+        if cod in stops and cur is not None:
             res.append((cur, p + 3))
             cur = None if need_start == 'always' else p + 3
     if not need_stop and cur is not None and cur < n:
         res.append((cur, n))
     return res
+
+
+def _codon_set(case, key):
+    """(set of codon words, scan oracle applicable) for start= / stop=: the names 'start' / 'stop' are the default sets; a
+    custom alternation is scanned codon by codon when its words have three letters and cannot overlap one another (re.finditer
+    reports non-overlapping matches: a word of ANOTHER frame that overlaps the next in-frame word hides it - custom codon sets
+    are outside the property's claim, only model and code are compared there)"""
+    pat = case.get(key, key)
+    if pat == 'start':
+        return STARTS, True
+    if pat == 'stop':
+        return STOPS, True
+    ws = pat.split('|')
+    ok = all(len(w) == 3 and w.isalpha() and 'U' not in w for w in ws)
+    for u in ws:
+        for v in ws:
+            if ok and (u[1:] == v[:2] or u[2:] == v[:1]):
+                ok = False
+    return set(ws), ok
+
+
+def _expected_error(case):
+    """rf forms that are errors by the documented types: not an int, a name or an iterable of ints"""
+    rf = case['rf']
+    if rf is None or isinstance(rf, dict):
+        return 'TypeError'
+    if isinstance(rf, str) and rf not in ('fwd', 'bwd', 'both'):
+        return 'AssertionError'
+    return None
 
 
 def _mapped(s, orfs):
@@ -730,6 +877,9 @@ def _mapped(s, orfs):
 
 
 def _one_spec(case, got):
+    ee = _expected_error(case)
+    if ee is not None:
+        return None if _is_exc(got) and got['e'] == ee else 'rf=%r: expected %s, got %r' % (case['rf'], ee, got)
     if _is_exc(got):
         return 'raised %s' % got['e']
     s_orig = case['s']
@@ -755,10 +905,21 @@ def _one_spec(case, got):
         if not (0 <= a < e <= L) or f not in frames:
             return 'minlen=0 result has interval (%d, %d, rf=%r) not inside the sequence of length %d' % (a, e, f, L)
     exp = []
-    for f in frames:
-        d = _strand(s, f).replace('-', '').replace('U', 'T')
-        exp += [(f, a, e) for a, e in _ref_frame(d, f if f >= 0 else -f - 1, ns, need_stop)]
+    sset, ok1 = _codon_set(case, 'start')
+    pset, ok2 = _codon_set(case, 'stop')
+    custom = 'start' in case or 'stop' in case
     mp = _mapped(s, base)
+    if not (ok1 and ok2):
+        return None                              # overlapping custom words: invariants only (see _codon_set)
+    for f in frames:
+        d = _strand(s, f).replace('-', '')
+        if not custom:
+            d = d.replace('U', 'T')
+        k = f if f >= 0 else -f - 1
+        if -3 <= f <= 2:
+            exp += [(f, a, e) for a, e in _ref_frame(d, k, ns, need_stop, sset, pset)]
+        elif ns == 'never' and not need_stop and k < len(d):
+            exp.append((f, k, len(d)))           # a frame outside -3..2 holds no codon; 'never' reads from its k-th residue
     if [m[:3] for m in mp] != exp:
         return 'ORFs in residue coordinates %r, expected %r' % ([m[:3] for m in mp], exp)
     if default:
@@ -768,8 +929,10 @@ def _one_spec(case, got):
             if not m[3]:
                 return 'ORF %r does not start/end on a residue' % (m,)
     if '-' in s:                                 # one-to-one with the degapped sequence (relational)
-        dg = s.replace('-', '')
+        g = _gapset(case)
+        dg = ''.join(ch for ch in s_orig if ch not in g) if 'gap' in case else s.replace('-', '')
         other, err = _call_safe(dg, _kwargs(case, minlen=0), 'data')
+        dg = _norm_s(dict(case, s=dg))
         if err:
             return 'raised %s on the degapped sequence %r' % (err, dg)
         if any(not (0 <= o[0] < o[1] <= len(dg)) for o in other):
@@ -783,7 +946,8 @@ def _one_nontrivial(case, got):
     if _is_exc(got) or not got:
         return None
     strands = ''.join(sorted(set(o[2] for o in got)))
-    return [case['need_start'], case['need_stop'], '-' in _norm_s(case), strands, case['minlen'] > 0, case.get('gap', '-')]
+    return [case['need_start'], case['need_stop'], '-' in _norm_s(case), strands, case['minlen'] > 0, case.get('gap', '-'),
+            case.get('start'), case.get('stop')]
 
 
 def _one_histkey(case, got):
@@ -791,9 +955,15 @@ def _one_histkey(case, got):
     rf = case['rf']
     k = ['len=' + ('0-2' if n < 3 else '3-9' if n <= 9 else '10-99' if n < 100 else '100+'),
          'need_start=' + str(case['need_start']), 'need_stop=' + str(case['need_stop']),
-         'rf=' + (rf if isinstance(rf, str) else 'int' if isinstance(rf, int) else 'tuple' if case.get('rf_tuple') else 'list'),
+         'rf=' + (('name' if rf in ('fwd', 'bwd', 'both') else 'bad-name') + ':' + rf if isinstance(rf, str) else 'None' if rf is None else
+                  'numpy-int' if isinstance(rf, dict) and 'np' in rf else 'float' if isinstance(rf, dict) else
+                  'int' if isinstance(rf, int) else 'tuple' if case.get('rf_tuple') else 'list'),
          'gaps' if '-' in _norm_s(case) else 'gapfree', 'minlen>0' if case['minlen'] else 'minlen=0', 'gap=' + str(case.get('gap', '-'))] + (
         ['lower-case via ' + str(case.get('via'))] if case['s'] != case['s'].upper() else []) + (['warnings=error'] if case.get('werr') else [])
+    if 'start' in case or 'stop' in case:
+        k.append('custom codon set')
+    if isinstance(rf, list) and any(not -3 <= f <= 2 for f in rf if isinstance(f, int)) or isinstance(rf, int) and not -3 <= rf <= 2:
+        k.append('frame outside -3..2')
     if _is_exc(got):
         k.append('raises=' + got['e'])
     else:
@@ -813,7 +983,7 @@ def _one_features(case, got):
 
 
 def _one_python_snippet(case):
-    return ("from sugar import BioSeq; print([(o.loc.start, o.loc.stop, str(o.loc.strand), o.meta.rf) "
+    return ("import numpy as np; from sugar import BioSeq; print([(o.loc.start, o.loc.stop, str(o.loc.strand), o.meta.rf) "
             "for o in BioSeq(%r).find_orfs(**%r)])" % (case['s'], _kwargs(case)))
 
 
@@ -1157,7 +1327,7 @@ def python_snippet(case):
     return ("import sys; sys.path.insert(0, '/verif/tools'); from props import c12; "
             "print(c12._hist_impl(%r))" % (case,))
 
-LEVEL_TEXT = ('Machine-checked Coq theorems (22, all closed under the global context) about a line-by-line Gallina model of find_orfs, '
+LEVEL_TEXT = ('Machine-checked Coq theorems (32, all closed under the global context) about a line-by-line Gallina model of find_orfs, '
               '_frame_start, _inds2orf, the codon locator of match(), BioSeq/BioBasket.find_orfs and the len_* filters. Every clause of the '
               'property text is a theorem about the model: '
               '(1) every mode, every sequence, rf, minlen, no hypothesis: the fuelled pairing loop terminates within |starts|+|stops|+1 '
@@ -1183,13 +1353,27 @@ LEVEL_TEXT = ('Machine-checked Coq theorems (22, all closed under the global con
               'per-sequence results, every feature carrying the requested type and the id of its own sequence and satisfying the '
               'invariants with respect to that sequence (C12_basket_map, C12_feature_observables); find_orfs(minlen=m) equals find_orfs() '
               'followed by filter(len_ge=m) / len_min, a later len_ge composes as max (C12_minlen_is_len_ge), every len_<op> filter keeps '
-              'exactly the features passing the test (C12_filter_len_spec). The model is tied to sugar by differential testing on every '
+              'exactly the features passing the test (C12_filter_len_spec). (6) round 7 - the gap option is a SET of characters in the model '
+              '(find_orfs_x g: regex class, "nt in gap", rstrip(gap), gap=None = empty set): for every set over the self-complementary '
+              'symbols ".-_~*N" find_orfs_x g on a text equals find_orfs on the text with the gap characters rewritten to "-" '
+              '(C12_gapset_transfer, so every theorem speaks about every gap option) and P2 holds for any gap set '
+              '(C12_gap_bijection_any_gap). CUSTOM codon sets (start=/stop= alternations of literal words, any lengths): every mode equals '
+              'its specification over the custom codon lists (C12_custom_modes_spec, C12_custom_codon_lists), all intervals lie inside the '
+              'sequence, respect minlen and identify a requested frame (C12_custom_invariants), the default pairing lists exactly the '
+              '(a, e) with is_orf_x, once, in order (C12_custom_is_orf). The default-settings clause against the declarative predicate '
+              'is_orf(text, frame, a, e), both strands, any frame list: sound, complete, no duplicates, increasing order '
+              '(C12_default_is_orf) with residue offset = frame and residue count divisible by three (C12_is_orf_residues). Every rf form: '
+              'names, ints, tuples, one numpy integer / float / None (TypeError), another string (AssertionError) (C12_rf_forms); frames '
+              'outside -3..2 hold no codon (C12_out_of_range_frame). The model is tied to sugar by differential testing on every '
               'run (run_C12 and run_C12_basket); an independent codon-scan oracle checks the property text on the same cases.')
 LEVEL_NOTE = ('Trusted: Coq kernel/vm_compute, the correspondence harness, CPython re/bisect/str.rstrip/functools.reduce. Modelled rather '
               'than verified: find_orfs, _frame_start, _inds2orf, match() with the default start/stop patterns and gap="-", the '
               'BioSeq/BioBasket.find_orfs glue and FeatureList.filter(len_<op>) by its meaning (the tie to /repo is the differential '
-              'correspondence, i.e. testing). Tested only, not proved: custom start/stop patterns (outside the claim); gap options "." '
-              'and ".-" (compared with the model on the text rewritten to "-"); the call forms (positional / keyword), numpy and float '
+              'correspondence, i.e. testing). Custom start/stop patterns are modelled as alternations of literal words '
+              '(regex classes / wildcards in custom patterns are not modelled; with custom words that can overlap one another '
+              're.finditer hides in-frame codons behind out-of-frame ones - the model reproduces it, the codon-scan oracle is applied '
+              'to non-overlapping three-letter sets only; custom sets are outside the property text). Gap strings: non-empty, over '
+              '".-_~*N", "-" first or last (no regex range); gap="" (sugar builds the class "[]*...") is outside the domain. Tested only: the call forms (positional / keyword), numpy and float '
               'argument kinds, feature types and ids reach the model as plain values - that sugar treats them alike is what the '
               'basket/feature stream tests; state independence of find_orfs (no carried state, caches, aliasing of results, '
               'in-place shortcuts) is tested by the history stream, the pure model being applied to the current text at every step. '
@@ -1200,6 +1384,8 @@ LEVEL_NOTE = ('Trusted: Coq kernel/vm_compute, the correspondence harness, CPyth
               'gap="-" and an rf; they belong to C13. The defects never_frame_start / gap_tail found by this check are repaired in /repo '
               '(0bbdf85); their witnesses are regression cases in corpus/C12 and an Example in C12_Props.v; corpus/C12/shapes.json holds '
               'the witnesses of the round-6 self-mutation round (long gap runs, gap-only tails, positional calls, custom types, numpy '
-              'frames, boundary len filters). rf tuples with repeated or out-of-range frames, a single numpy integer as rf and an empty '
-              'basket (TypeError, modelled) are outside the correspondence domain (the theorems themselves need no such hypothesis). No axioms.')
+              'frames, boundary len filters). rf tuples with REPEATED frames are outside the correspondence domain (find_orfs pops from the '
+              'per-frame match lists, a second pass over the same frame sees what the first left: not modelled); out-of-range frames, one '
+              'numpy integer / float / None / other strings as rf and the empty basket are inside. match(): 52/55 statements, missing 210, 242, 256 '
+              '(BioSeq pattern, return m for matchall=False: unreachable through find_orfs). No axioms.')
 TECHNIQUE = 'Coq proof over an executable model + differential correspondence + first-principles oracle'
